@@ -402,6 +402,13 @@ struct ModSpec {
     /// per function: blocks, each with (number of result-producing instructions, phi count, terminator)
     funcs: Vec<Vec<(usize, usize, &'static str)>>,
     control: u32,
+    /// opcode of the result-producing block instructions (all its operands are ids)
+    op: &'static str,
+    /// number of id operands of `op`
+    arity: usize,
+    /// every operation takes the result of the operation before it as its operands (a def-use chain that ends in the
+    /// block's terminator) instead of two unrelated ids
+    chain: bool,
 }
 
 fn build_module(s: &ModSpec) -> Option<(Vec<Inst>, Expected)> {
@@ -526,7 +533,13 @@ fn build_module(s: &ModSpec) -> Option<(Vec<Inst>, Expected)> {
                 next += 1;
                 // the last operation of a block takes its result type from the whole type list in turn
                 let ot = if k + 1 == *nops { (bi + fi + type_ids.len() - 1) % type_ids.len() } else { type_ids.iter().position(|x| x.0 == int).unwrap() };
-                insts.push(Inst::new("IAdd", Some(type_ids[ot].0), Some(id), vec![Arg::IdRef(int), Arg::IdRef(void)]));
+                let args: Vec<Arg> = if s.chain {
+                    let a = last_val.or(const_ids.first().copied()).unwrap_or(int);
+                    (0..s.arity).map(|_| Arg::IdRef(a)).collect()
+                } else {
+                    (0..s.arity).map(|q| Arg::IdRef(if q % 2 == 0 { int } else { void })).collect()
+                };
+                insts.push(Inst::new(s.op, Some(type_ids[ot].0), Some(id), args));
                 last_val = Some(id);
                 prev_op_next = Some((id, ot));
                 n_ops += 1;
@@ -794,15 +807,102 @@ pub fn run(tier: Tier) -> Run {
     for (ti, ts) in type_seqs.iter().enumerate() {
         let caps = cap_lists[ti % cap_lists.len()].clone();
         let f = func_shapes[ti % func_shapes.len()].clone();
-        specs.push(ModSpec { caps, types: ts.clone(), consts: ti % 5, funcs: vec![f], control: [0u32, 1, 2, 4, 8, 3][ti % 6] });
+        specs.push(ModSpec { caps, types: ts.clone(), consts: ti % 5, funcs: vec![f], control: [0u32, 1, 2, 4, 8, 3][ti % 6], op: "IAdd", arity: 2, chain: false });
     }
     for (fi, f) in func_shapes.iter().enumerate() {
         for caps in &cap_lists {
-            specs.push(ModSpec { caps: caps.clone(), types: vec!["float", "vector"], consts: 4, funcs: vec![f.clone()], control: (fi % 4) as u32 });
-            specs.push(ModSpec { caps: caps.clone(), types: vec![], consts: fi % 5, funcs: vec![f.clone(), func_shapes[(fi * 7 + 3) % func_shapes.len()].clone()], control: 1 });
+            specs.push(ModSpec { caps: caps.clone(), types: vec!["float", "vector"], consts: 4, funcs: vec![f.clone()], control: (fi % 4) as u32, op: "IAdd", arity: 2, chain: false });
+            specs.push(ModSpec { caps: caps.clone(), types: vec![], consts: fi % 5, funcs: vec![f.clone(), func_shapes[(fi * 7 + 3) % func_shapes.len()].clone()], control: 1, op: "IAdd", arity: 2, chain: false });
             // two functions behind a declared function type whose return type is not the second function's result type
-            specs.push(ModSpec { caps: caps.clone(), types: vec!["float", "function"], consts: fi % 3, funcs: vec![func_shapes[(fi * 5 + 1) % func_shapes.len()].clone(), f.clone()], control: 2 });
+            specs.push(ModSpec { caps: caps.clone(), types: vec!["float", "function"], consts: fi % 3, funcs: vec![func_shapes[(fi * 5 + 1) % func_shapes.len()].clone(), f.clone()], control: 2, op: "IAdd", arity: 2, chain: false });
         }
+    }
+    // ---- def-use chains: for EVERY liftable opcode whose operands are 1..3 plain ids, a chain of 1..4 such operations
+    //      (each one's operands are the result of the one before) ending in the block's terminator (conditional branch on
+    //      the last value / return of the last value / plain return): the terminator names the id that was written
+    {
+        let chain_ops: Vec<(&'static str, usize)> = g
+            .insts
+            .iter()
+            .filter(|gi| gi.has_rid() && gi.has_rtype() && class_of(&gi.name) == Class::Block && gi.name != "Phi" && !unsupported.contains(&gi.name.as_str()))
+            .filter_map(|gi| {
+                let v = gi.value_operands();
+                if (1..=3).contains(&v.len()) && v.iter().all(|(k, q)| k == "IdRef" && *q == crate::golden::Quant::One) {
+                    Some((&*Box::leak(gi.name.clone().into_boxed_str()), v.len()))
+                } else {
+                    None
+                }
+            })
+            .collect();
+        // opcodes with an id operand the lifter resolves as a TYPE (OpCooperativeMatrixLengthKHR ..) cannot take a value
+        // there ("declared-before-use types" is a premise of the statement): the one-operation chain whose operand is a
+        // constant id tells them apart; they stay covered by part (a), where every id names a declared type
+        let chain_ops: Vec<(&'static str, usize)> = chain_ops
+            .into_par_iter()
+            .filter(|(op, arity)| check_module(&ModSpec { caps: vec![1], types: vec!["bool"], consts: 1, funcs: vec![vec![(1, 0, "Return")]], control: 0, op, arity: *arity, chain: true }).0.is_empty())
+            .collect();
+        run.outcome("chain_opcodes", chain_ops.len() as u64);
+        for (op, arity) in chain_ops {
+            for d in 1..=4usize {
+                for tail in ["BranchConditional", "ReturnValue", "Return"] {
+                    let f = if tail == "BranchConditional" { vec![(d, 0, "Return"), (d, 0, tail)] } else { vec![(d, 0, tail)] };
+                    specs.push(ModSpec { caps: vec![1], types: vec!["bool"], consts: 1, funcs: vec![f], control: 0, op, arity, chain: true });
+                }
+            }
+        }
+    }
+    // ---- composite constants whose number of constituents is independent of what their type declares (vector of 2,
+    //      struct of 2, arrays whose length is an unsigned / a signed constant N): k = 0..6 constituents for N = 0..5. The
+    //      lifter does not validate; each declaration is lifted with every operand it has, whatever its type says. The
+    //      oracle is differential: all k behave alike (k tokens of the constituent), or the type is not liftable at all
+    {
+        let mut n = 0u64;
+        for nval in [0u32, 1, 2, 3, 5] {
+            for (tname, tid) in [("array-unsigned-length", 30u32), ("array-signed-length", 31), ("vector", 32), ("struct", 33)] {
+                let mut verdicts: Vec<(usize, Result<String, String>)> = vec![];
+                for k in 0..=6usize {
+                    let mut insts = vec![
+                        Inst::new("Capability", None, None, vec![Arg::Enum("Capability", 1)]),
+                        Inst::new("MemoryModel", None, None, vec![Arg::Enum("AddressingModel", 0), Arg::Enum("MemoryModel", 1)]),
+                        Inst::new("TypeInt", None, Some(11), vec![Arg::Lit32(32), Arg::Lit32(0)]),
+                        Inst::new("TypeInt", None, Some(12), vec![Arg::Lit32(32), Arg::Lit32(1)]),
+                        Inst::new("Constant", Some(11), Some(20), vec![Arg::Lit32(nval)]),
+                        Inst::new("Constant", Some(12), Some(21), vec![Arg::Lit32(nval)]),
+                    ];
+                    insts.push(match tid {
+                        30 => Inst::new("TypeArray", None, Some(30), vec![Arg::IdRef(11), Arg::IdRef(20)]),
+                        31 => Inst::new("TypeArray", None, Some(31), vec![Arg::IdRef(11), Arg::IdRef(21)]),
+                        32 => Inst::new("TypeVector", None, Some(32), vec![Arg::IdRef(11), Arg::Lit32(2)]),
+                        _ => Inst::new("TypeStruct", None, Some(33), vec![Arg::IdRef(11), Arg::IdRef(11)]),
+                    });
+                    insts.push(Inst::new("ConstantComposite", Some(tid), Some(40), (0..k).map(|_| Arg::IdRef(20)).collect()));
+                    let mut words = model::header(0x0001_0300, 0, 100);
+                    for x in &insts {
+                        words.extend(enc(x));
+                    }
+                    n += 1;
+                    let r = match lift_words(&words) {
+                        Err(p) => Err(format!("panic: {}", p)),
+                        Ok(Err(e)) => Err(e),
+                        Ok(Ok(m)) => Ok(storage_entries(&format!("{:?}", m.constants)).last().map(|e| atoms_compact(e)).unwrap_or_default()),
+                    };
+                    verdicts.push((k, r));
+                }
+                let liftable = verdicts.iter().any(|(_, r)| r.is_ok());
+                for (k, r) in &verdicts {
+                    let want = format!("Composite{}", " T0".repeat(*k));
+                    let bad = match r {
+                        Ok(got) => *got != want,
+                        Err(e) => liftable || e.starts_with("panic"),
+                    };
+                    if bad {
+                        run.add(viol(format!("C18:constant-composite:{}", tname), format!("OpConstantComposite of a {} type (N = {}) with {} constituents: lifted {:?}, expected {:?} (every operand carried over, in order)", tname, nval, k, r, want), json!({"kind": "c18-composite", "type": tname, "n": nval, "constituents": k})));
+                        break;
+                    }
+                }
+            }
+        }
+        run.outcome("composite_constants_by_count", n);
     }
     // ---- every capability x every addressing model x every memory model in front of one fixed body with an unsigned, a
     //      signed and a float constant and one operation: what is lifted from the body must not depend on the
